@@ -305,21 +305,24 @@ def iter (lg : Bool) (ws : WS) (rest : List UInt8) : R :=
     | 99 => .ret ws (-2) 0 none 0
     | _ => .fault "decode_step: no case (the C loop would spin)"
 
-/-- what follows the `while` loop -/
-def tail (lg : Bool) (ws : WS) (cur : Nat) : R :=
-  let after (ws : WS) : R :=
-    if (ws.step = 17 ∨ ws.step = 18) ∧ ws.payloadSize = ws.payloadIndex then
-      match payloadComplete lg ws with
-      | .cont ws' _ => .ret ws' 0 cur none 0
-      | .ret ws' st _ pl plen => .ret ws' st cur pl plen
-      | .fault s => .fault s
-    else .ret ws 0 cur none 0
-  if ws.step = 16 then
-    match headerComplete lg ws with
-    | .cont ws' _ => after ws'
+/-- after the loop, second part: `switch (decode_step) { case Payload…: if (payload_size == payload_index) … }`
+    and the final `return MHD_WEBSOCKET_STATUS_OK` -/
+def tailAfter (lg : Bool) (ws : WS) (cur : Nat) : R :=
+  if (ws.step = 17 ∨ ws.step = 18) ∧ ws.payloadSize = ws.payloadIndex then
+    match payloadComplete lg ws with
+    | .cont ws' _ => .ret ws' 0 cur none 0
     | .ret ws' st _ pl plen => .ret ws' st cur pl plen
     | .fault s => .fault s
-  else after ws
+  else .ret ws 0 cur none 0
+
+/-- what follows the `while` loop -/
+def tail (lg : Bool) (ws : WS) (cur : Nat) : R :=
+  if ws.step = 16 then
+    match headerComplete lg ws with
+    | .cont ws' _ => tailAfter lg ws' cur
+    | .ret ws' st _ pl plen => .ret ws' st cur pl plen
+    | .fault s => .fault s
+  else tailAfter lg ws cur
 
 /-- the `while` loop; `fuel` bounds the number of trips (3 per byte suffice, proved) -/
 def loop (lg : Bool) : Nat → WS → List UInt8 → Nat → R
